@@ -2,6 +2,7 @@ import FqModel.JQValue
 import Proofs.C08
 import Proofs.C08Utf8
 import Proofs.C08Methods
+import Proofs.C08Spec
 /-!
   C08 — a decode value is indistinguishable from its JSON value in read-only jq.
 
@@ -284,6 +285,43 @@ theorem indistinguishable_partial (ff : UInt64 → Option Bytes) (d : DV) (q : Q
   · simp only [Q.eval, wrap, tojson_agree ff d h4]
   · simp only [Q.eval, wrap, tostring_agree ff d h4]
 
+/-- Query level, code against specification: for every slice-free query of the mini-jq
+    (identity, .k, .[i], .[], .., pipe, comma, literals, [..], {(k):v}, keys, has, length, type, paths,
+    to_entries, tojson, tostring, tonumber, ==, <, sort, +, -, if, //, try — arbitrarily nested) and
+    EVERY evaluation value `v` (decode values of any shape, plain values, containers holding decode
+    values): evaluating with the model of the code (`Mode.real`: dispatch to the JQValue* methods)
+    and with the executable specification (plain gojq semantics on the view of a decode value = its
+    tovalue one level deep, with exactly D1-D4) extended by exactly the recorded deviations
+    (`Mode.known`: string-index-out-of-range, object-key-jqvalue, gojq-minint-length) gives the same
+    outputs in the same order and ends the same way (no error / error / Go panic).
+    This is the induction over the query that DESIGN §10 calls `indistinguishable`, in the form
+    "code = specification + known findings". NOT proved: that the specification mode on `wrap d`
+    relates to the plain evaluation on `toValue d` modulo D1-D4 for whole queries (it does by
+    construction for one step: the method-level theorems above); `.[a:b]` is separate (`slice_spec`). -/
+theorem indistinguishable_spec (ff : UInt64 → Option Bytes) (q : Q) (h : NoSlice q) (v : Val) :
+    ResEq (q.eval Mode.real ff v) (q.eval Mode.known ff v) :=
+  eval_rk ff q h v
+
+/-- `.[a:b]`, code against specification, for every evaluation value: equal up to `normG` (the slice
+    of a decoded JSON array is a bare gojqx.Array in the code, a plain array in the specification) -/
+theorem slice_spec (v : Val) (s e : Option Int) :
+    OutEq (mapOut normG (funcSlice Mode.real v s e)) (mapOut normG (funcSlice Mode.known v s e)) :=
+  slice_rk v s e
+
+/-- without the recorded deviations the statement is false: the specification proper differs from
+    the code exactly there (an index outside a decoded string) -/
+theorem indistinguishable_spec_needs_known :
+    ¬ ResEq ((Q.index 5).eval Mode.real (fun _ => none) (wrap (.scalar (.str [97, 98, 99]) none false)))
+        ((Q.index 5).eval Mode.spec (fun _ => none) (wrap (.scalar (.str [97, 98, 99]) none false))) := by
+  intro h
+  have h1 : ((Q.index 5).eval Mode.real (fun _ => none) (wrap (.scalar (.str [97, 98, 99]) none false))).outs
+      = [Val.str []] := rfl
+  have h2 : ((Q.index 5).eval Mode.spec (fun _ => none) (wrap (.scalar (.str [97, 98, 99]) none false))).outs
+      = [Val.null] := rfl
+  have := h.1
+  rw [h1, h2] at this
+  cases this
+
 /-! ### the hypotheses are satisfiable by non-trivial values -/
 
 /-- a struct with two fields, a nested array, a symbolic value and raw bits satisfies every hypothesis -/
@@ -295,6 +333,9 @@ example :
   · simp only [NamesDistinct]; decide
   · simp only [RawOKDeep, RawOKFields, RawOKList, svRawOK, scalarValue, actualSV, and_true, true_and]
     decide
+
+example : NoSlice (.pipe (.arrC (.pipe .recurse (.try (.field [97])))) (.bin .add .sort (.objC .id .length))) := by
+  simp [NoSlice]
 
 example : NotExt (.str [97]) ∧ isExtKey [97] = false := by
   refine ⟨?_, by decide⟩
